@@ -192,7 +192,8 @@ fn decode_section(ctx: &mut Ctx, n: u64) -> String {
             let _ = write!(want, "{a}|{ch:?}|{num}|{a:>w$}");
             let cap = prefix.len() + ctx.rng.below(40) as usize;
             let fits = want.len() <= cap;
-            with_string::<true>(kind, &prefix, Some(cap), &mut |mut s| {
+            let cfg = ctx.rng.below(4) as usize;
+            with_config(cfg, kind, &prefix, Ctor::WithCap { cap, try_: false }, &mut |mut s| {
                 let r = catch_unwind(AssertUnwindSafe(|| s.write_fmt_args(format_args!("{a}|{ch:?}|{num}|{a:>w$}"))));
                 c_fmt += 1;
                 let b = s.bytes();
